@@ -540,12 +540,12 @@ def study_matrix(run, rng, M, L_exh, L_set, L_img, sample=False, routes=("matrix
             if not judge_language(run, Mo, shortlex, by_len, Lw, "enumerate_words", case,
                                   names, monitor="public-api"):
                 continue
-            if len(aut.graph_dict) <= (1500 if run.tier == "thorough" else 260):
+            if len(aut.graph_dict) <= (500 if run.tier == "thorough" else 260):
                 base_even[shortlex] = [by_len[l] for l in range(0, Lw + 1, 2)]
             else:
                 # automaton_multiple revisits states; budget, not domain
                 evn.diag("even variant not built for an automaton with > %d states"
-                         % (1500 if run.tier == "thorough" else 260))
+                         % (500 if run.tier == "thorough" else 260))
             if shortlex:
                 judge_growth(run, Mo, [len(s) for s in by_len], "enumerate_words", case)
             # -- FSA.accepts on every word up to L_exh
